@@ -157,10 +157,11 @@ impl ReturnType for BinOperation {
             BinOperator::Partition => partition::return_type(lhs),
             BinOperator::Map => map::return_type(rhs),
             BinOperator::At => lhs.index_result().unwrap(),
-            BinOperator::FunctionCall => lhs.return_type().unwrap(),
+            // the callee is a function, or - once a constant condition was folded away - of type `!`
+            BinOperator::FunctionCall => lhs.return_type().unwrap_or(Type::Never),
             BinOperator::Assign => rhs,
             BinOperator::LShift | BinOperator::RShift | BinOperator::Modulo => Type::Int,
-            _ => lhs.mut_element_type().unwrap(),
+            _ => lhs.mut_element_type().unwrap_or(Type::Never),
         }
     }
 }
